@@ -7,4 +7,5 @@ CONSTANTS
   Overlap = "proper"
   EmptyBlockOwner = "parent"
   CheckAgree = TRUE
+  TwoComments = FALSE
 INVARIANTS CodedEqStated Emit
